@@ -461,6 +461,14 @@ def table_cases(tabs_by_pdk):
                             yield mk({"prim": "Mos", "params": p}, twice=True)
         # ways of naming the PDK
         yield mk({"prim": "Mos", "params": {"tp": "NMOS", "family": "CORE"} if pdk != "asap7" else {"tp": "NMOS"}}, pre_walk=True)
+        # several requests for one device in one compile: equal sizes, different fingers / multipliers; and exact repeats
+        sel = {"tp": "NMOS", "family": "CORE"} if pdk in ("sky130", "gf180") else {"tp": "NMOS"}
+        many = []
+        for extra in ({"mult": TWO}, {"mult": {"t": "pref", "v": ["3", 0]}}, {"nf": TWO}, {}, {"mult": TWO}):
+            pp = dict(sel); pp.update({"w": U, "l": U2}); pp.update(extra)
+            many.append({"prim": "Mos", "params": pp})
+        c = dict(base); c["reqs"] = many; c["shape"] = {"depth": 2, "levels": [0, 0, 1, 1, 1]}; c["twice"] = True
+        yield c
         for how in ("default", "name", "module"):
             yield mk({"prim": "Mos", "params": {"tp": "PMOS", "family": "CORE"} if pdk != "asap7" else {"tp": "PMOS"}}, how=how)
 
